@@ -182,7 +182,9 @@ class LocalShare:
 
     def __addPackage(self, buildId, size):
         def update(f):
-            meta = json.load(f)
+            # The file is empty if we got the lock before its creator.
+            data = f.read()
+            meta = json.loads(data) if data else {}
             meta.setdefault("pkgs", {})[asHexStr(buildId)] = size
             f.seek(0)
             f.truncate()
@@ -199,11 +201,11 @@ class LocalShare:
                 with OpenLocked(fn, "r+", True) as f:
                     return update(f)
             except FileNotFoundError:
-                # Unusual case: does not exist yet -> create atomically.
+                # Unusual case: does not exist yet -> create atomically. Others
+                # might see the file and lock it before us.
                 try:
-                    with OpenLocked(fn, "x", True) as f:
-                        json.dump({"pkgs" : {asHexStr(buildId) : size}}, f)
-                        return size
+                    with OpenLocked(fn, "x+", True) as f:
+                        return update(f)
                 except FileExistsError:
                     # Almost impossible case: lost creation race -> update
                     with OpenLocked(fn, "r+", True) as f:
@@ -333,7 +335,9 @@ class LocalShare:
             # and usage of packages.
             candidates = []
             with OpenLocked(os.path.join(self.__path, "repo.json"), "r+", True) as rf:
-                repoMeta = json.load(rf)
+                # Empty if the first installation is just adding its package
+                repoData = rf.read()
+                repoMeta = json.loads(repoData) if repoData else {}
 
                 # Scan all packages
                 for pkg, size in repoMeta.get("pkgs", {}).items():
